@@ -1163,6 +1163,375 @@ func genYAMLNode(t *rapid.T, depth int) ynode {
 }
 
 // ---------------------------------------------------------------------------
+// produced numbers: values manufactured by builtins from text (tonumber,
+// fromjson, arithmetic, string surgery) and then serialised in every mode
+
+type producer struct {
+	q   string // jq program applied to the source string
+	src string // grammar of the source: "jq" (what tonumber accepts) | "json"
+	tr  string // id | neg | abs | runes | bytes | one : expected value of every number leaf
+	n   int    // number of number leaves in the output
+}
+
+var producers = []producer{
+	{"tonumber", "jq", "id", 1},
+	{"tonumber | . + 0", "jq", "id", 1},
+	{"tonumber | . - 0", "jq", "id", 1},
+	{"tonumber | . * 1", "jq", "id", 1},
+	{"tonumber | . / 1", "jq", "id", 1},
+	{"tonumber | -.", "jq", "neg", 1},
+	{"tonumber | -(-.)", "jq", "id", 1},
+	{"tonumber | length", "jq", "abs", 1},
+	{"tonumber | abs", "jq", "abs", 1},
+	{"[., .] | map(tonumber)", "jq", "id", 2},
+	{"[.] | [.[] | tonumber]", "jq", "id", 1},
+	{"{a: tonumber}", "jq", "id", 1},
+	{"{a: [tonumber, {b: tonumber}]}", "jq", "id", 2},
+	{"tonumber | tojson | fromjson", "jq", "id", 1},
+	{"tonumber | tostring | tonumber", "jq", "id", 1},
+	{"tonumber | @text | tonumber", "jq", "id", 1},
+	{"tonumber | @json | fromjson", "jq", "id", 1},
+	{`"\(tonumber)" | tonumber`, "jq", "id", 1},
+	{`("x" + . + "y") | ltrimstr("x") | rtrimstr("y") | tonumber`, "jq", "id", 1},
+	{`("ab" + . + "cd") | .[2:-2] | tonumber`, "jq", "id", 1},
+	{`(. + "," + .) | [splits(",")] | map(tonumber)`, "jq", "id", 2},
+	{`(. + " " + .) | split(" ") | map(tonumber)`, "jq", "id", 2},
+	{`[scan("[-+.0-9eE]+")] | .[0] | tonumber`, "jq", "id", 1},
+	{`capture("(?<n>.+)").n | tonumber`, "jq", "id", 1},
+	{`sub("^"; "") | tonumber`, "jq", "id", 1},
+	{`split("") | join("") | tonumber`, "jq", "id", 1},
+	{"explode | implode | tonumber", "jq", "id", 1},
+	{"@base64 | @base64d | tonumber", "jq", "id", 1},
+	{"ascii_downcase | tonumber", "jq", "id", 1},
+	{"tojson | fromjson | tonumber", "jq", "id", 1},
+	{"[tonumber] | add", "jq", "id", 1},
+	{"[tonumber] | min", "jq", "id", 1},
+	{"[tonumber, tonumber] | unique", "jq", "id", 1},
+	{"reduce tonumber as $x (null; $x)", "jq", "id", 1},
+	{"tonumber as $x | [$x] | first", "jq", "id", 1},
+	{"length", "jq", "runes", 1},
+	{"utf8bytelength", "jq", "bytes", 1},
+	{"[.] | length", "jq", "one", 1},
+	{"[explode[] | select(. > 0)] | length", "jq", "runes", 1},
+	{"fromjson", "json", "id", 1},
+	{`("[" + . + "]") | fromjson | .[0]`, "json", "id", 1},
+	{`("{\"a\":[" + . + "," + . + "]}") | fromjson`, "json", "id", 2},
+	{"fromjson | tojson | fromjson", "json", "id", 1},
+	{"fromjson | [., .]", "json", "id", 2},
+	{"{a: fromjson}", "json", "id", 1},
+	{"fromjson | . + 0", "json", "id", 1},
+	{"fromjson | . * 1", "json", "id", 1},
+	{"fromjson | -.", "json", "neg", 1},
+	{"fromjson | tostring | tonumber", "json", "id", 1},
+	{"fromjson | tonumber", "json", "id", 1},
+	{"tonumber | tojson | fromjson | . + 0", "json", "id", 1},
+}
+
+var producerByQuery = map[string]producer{}
+
+var prodCodes = map[string]*gojq.Code{}
+
+func init() {
+	for _, p := range producers {
+		producerByQuery[p.q] = p
+	}
+}
+
+func prodCode(q string) (*gojq.Code, error) {
+	if c, ok := prodCodes[q]; ok {
+		return c, nil
+	}
+	c, err := run.Compile(q)
+	if err != nil {
+		return nil, err
+	}
+	prodCodes[q] = c
+	return c, nil
+}
+
+var jqNum = regexp.MustCompile(`^[-+]?(\.[0-9]+|[0-9]+(\.[0-9]*)?)([eE][-+]?[0-9]+)?$`)
+
+// prodWant: the exact value every number leaf must denote, and whether the
+// source denotes an integer without using a fraction or an exponent (then
+// the result must be exact; otherwise gojq documents conversion to float64
+// and the nearest double, saturated, is admitted as well).
+func prodWant(p producer, src string) (*big.Rat, bool, bool) {
+	switch p.tr {
+	case "runes":
+		return new(big.Rat).SetInt64(int64(utf8.RuneCountInString(src))), true, true
+	case "bytes":
+		return new(big.Rat).SetInt64(int64(len(src))), true, true
+	case "one":
+		return new(big.Rat).SetInt64(1), true, true
+	}
+	if !jqNum.MatchString(src) {
+		return nil, false, false
+	}
+	r, ok := litRat(jsonSpelling(src))
+	if !ok {
+		return nil, false, false
+	}
+	switch p.tr {
+	case "neg":
+		r.Neg(r)
+	case "abs":
+		r.Abs(r)
+	}
+	return r, !strings.ContainsAny(src, ".eE"), true
+}
+
+func prodLeafOK(lit string, want *big.Rat, exact bool) bool {
+	got, ok := litRat(lit)
+	if ok && got.Cmp(want) == 0 {
+		return true
+	}
+	if exact {
+		return false
+	}
+	w, _ := want.Float64()
+	w = min(max(w, -math.MaxFloat64), math.MaxFloat64)
+	g, err := strconv.ParseFloat(lit, 64)
+	return err == nil && g == w
+}
+
+// prodText: text is one strict JSON text whose leaves are exactly n numbers
+// denoting want.
+func prodText(text string, p producer, src string, nlOK bool) string {
+	want, exact, ok := prodWant(p, src)
+	if !ok {
+		return "bad case: source " + strconv.Quote(src)
+	}
+	if !utf8.ValidString(text) {
+		return fmt.Sprintf("invalid UTF-8 %q", clip(text, 200))
+	}
+	if !nlOK && strings.ContainsAny(text, "\n\t") {
+		return fmt.Sprintf("control character in %q", clip(text, 200))
+	}
+	v, err := scanJSON(text)
+	if err != nil {
+		return fmt.Sprintf("%q is not well-formed JSON: %v", clip(text, 200), err)
+	}
+	if _, err := readBack(text); err != nil {
+		return fmt.Sprintf("encoding/json rejects %q: %v", clip(text, 200), err)
+	}
+	leaves := 0
+	var walk func(x any) string
+	walk = func(x any) string {
+		switch x := x.(type) {
+		case json.Number:
+			leaves++
+			if !prodLeafOK(string(x), want, exact) {
+				return fmt.Sprintf("the number %s is printed where %s (from the text %q) is expected", x, clip(want.RatString(), 80), src)
+			}
+		case []any:
+			for _, e := range x {
+				if msg := walk(e); msg != "" {
+					return msg
+				}
+			}
+		case map[string]any:
+			for _, e := range x {
+				if msg := walk(e); msg != "" {
+					return msg
+				}
+			}
+		default:
+			return fmt.Sprintf("unexpected %T in %q", x, clip(text, 200))
+		}
+		return ""
+	}
+	if msg := walk(v); msg != "" {
+		return msg + fmt.Sprintf(" (output %q)", clip(text, 200))
+	}
+	if leaves != p.n {
+		return fmt.Sprintf("%d numbers in %q, expected %d", leaves, clip(text, 200), p.n)
+	}
+	return ""
+}
+
+type prodCase struct {
+	Src  string `json:"src"`
+	Prod string `json:"prod"`
+}
+
+var prodForms = []string{"%s | tojson", "%s | tostring", "%s | @json", "%s | @text", `"\(%s)"`, `@json "\(%s)"`, "%s | tojson | fromjson | tojson", "[%s] | tojson | .[1:-1]"}
+
+func checkProduced(c prodCase) string {
+	p, ok := producerByQuery[c.Prod]
+	if !ok {
+		return "bad case: unknown producer"
+	}
+	code, err := prodCode(p.q)
+	if err != nil {
+		return err.Error()
+	}
+	res := run.Exec(code, c.Src, 0, 4)
+	if res.Err != nil || len(res.Vals) != 1 {
+		return fmt.Sprintf("%q | %s: err=%v outputs=%d", c.Src, p.q, res.Err, len(res.Vals))
+	}
+	v := res.Vals[0]
+	b, err := gojq.Marshal(v)
+	if err != nil {
+		return "Marshal: " + err.Error()
+	}
+	where := fmt.Sprintf("%q | %s (= %s)", c.Src, p.q, clip(univ.Show(v), 100))
+	if msg := prodText(string(b), p, c.Src, false); msg != "" {
+		return where + ": Marshal: " + msg
+	}
+	for _, f := range prodForms {
+		q := fmt.Sprintf(f, "("+p.q+")")
+		fc, err := prodCode(q)
+		if err != nil {
+			return err.Error()
+		}
+		r := run.Exec(fc, c.Src, 0, 4)
+		if r.Err != nil || len(r.Vals) != 1 {
+			return fmt.Sprintf("%q | %s: err=%v outputs=%d", c.Src, q, r.Err, len(r.Vals))
+		}
+		s, ok := r.Vals[0].(string)
+		if !ok {
+			return fmt.Sprintf("%q | %s gave a %T", c.Src, q, r.Vals[0])
+		}
+		if msg := prodText(s, p, c.Src, false); msg != "" {
+			return fmt.Sprintf("%q | %s: %s", c.Src, q, msg)
+		}
+		if !sameJSON(s, string(b)) {
+			return fmt.Sprintf("%q | %s gives %q, Marshal of the same value %q", c.Src, q, clip(s, 200), clip(string(b), 200))
+		}
+	}
+	// and the general oracle on the produced value itself
+	if msg := checkLib(libCase{V: univ.V{X: v}}); msg != "" {
+		return where + ": " + msg
+	}
+	return ""
+}
+
+type prodCLICase struct {
+	Srcs  []string `json:"srcs"`
+	Prod  string   `json:"prod"`
+	Flags []string `json:"flags"`
+	Mode  string   `json:"mode"` // mono | color | raw-tojson
+}
+
+func checkProducedCLI(c prodCLICase) string {
+	p, ok := producerByQuery[c.Prod]
+	if !ok {
+		return "bad case: unknown producer"
+	}
+	var in bytes.Buffer
+	for _, s := range c.Srcs {
+		b, _ := json.Marshal(s)
+		in.Write(b)
+		in.WriteByte('\n')
+	}
+	query, sep := "("+p.q+`), "`+sentinel+`"`, `"`+sentinel+`"`
+	args := []string{"-M"}
+	switch c.Mode {
+	case "mono", "color":
+	case "raw-tojson":
+		query, sep = "("+p.q+` | tojson), "`+sentinel+`"`, sentinel
+		args = append(args, "-r")
+	default:
+		return "bad mode"
+	}
+	args = append(args, c.Flags...)
+	r := cmdline.Run(cmdline.Opt{Stdin: in.Bytes()}, append(args, query)...)
+	if r.TimedOut {
+		rec.Discard("cli-timeout")
+		return ""
+	}
+	if r.Exit != 0 || r.Stderr != "" {
+		return fmt.Sprintf("gojq %v %q on %q exited %d, stderr %q", args, query, clip(in.String(), 200), r.Exit, clip(r.Stderr, 400))
+	}
+	chunks, msg := splitLines(r.Stdout, sep, len(c.Srcs))
+	if msg != "" {
+		return fmt.Sprintf("gojq %v %q: %s", args, query, msg)
+	}
+	layouts := layoutsOf(c.Flags)
+	if c.Mode == "raw-tojson" {
+		layouts = []string{"c"}
+	}
+	for i, text := range chunks {
+		where := fmt.Sprintf("gojq %v: %q | %s", args, c.Srcs[i], p.q)
+		if c.Mode == "raw-tojson" {
+			where += " | tojson"
+		}
+		if msg := prodText(text, p, c.Srcs[i], true); msg != "" {
+			return where + ": " + msg
+		}
+		if msg := checkLayout(text, layouts); msg != "" {
+			return where + ": indentation: " + msg
+		}
+	}
+	if c.Mode == "color" {
+		cargs := append([]string{"-C"}, c.Flags...)
+		rc := cmdline.Run(cmdline.Opt{Stdin: in.Bytes()}, append(cargs, query)...)
+		if rc.TimedOut {
+			rec.Discard("cli-timeout")
+			return ""
+		}
+		if rc.Exit != 0 || rc.Stderr != "" {
+			return fmt.Sprintf("gojq %v %q exited %d, stderr %q", cargs, query, rc.Exit, clip(rc.Stderr, 400))
+		}
+		if sgr.ReplaceAllString(rc.Stdout, "") != r.Stdout {
+			return fmt.Sprintf("gojq %v %q: output without SGR sequences %q differs from the monochrome output %q", cargs, query, clip(sgr.ReplaceAllString(rc.Stdout, ""), 200), clip(r.Stdout, 200))
+		}
+	}
+	return ""
+}
+
+// genJQNum draws a string in the number syntax tonumber accepts: optional
+// sign (also +), empty integer part, bare point, leading zeros, exponents.
+func genJQNum(t *rapid.T) string {
+	digits := func(label string, min, max int) string {
+		n := rapid.IntRange(min, max).Draw(t, label+"n")
+		var sb strings.Builder
+		for i := 0; i < n; i++ {
+			sb.WriteByte(byte('0' + rapid.IntRange(0, 9).Draw(t, label)))
+		}
+		return sb.String()
+	}
+	lens := []int{1, 2, 5, 16, 17, 18, 19, 20, 30, 40}
+	var sb strings.Builder
+	sb.WriteString(rapid.SampledFrom([]string{"", "", "+", "-"}).Draw(t, "sign"))
+	intPart := func() string {
+		z := ""
+		if rapid.IntRange(0, 4).Draw(t, "leadzero") == 0 {
+			z = strings.Repeat("0", rapid.IntRange(1, 4).Draw(t, "zeros"))
+		}
+		n := rapid.SampledFrom(lens).Draw(t, "intlen")
+		return z + digits("int", n, n)
+	}
+	frac := func() string {
+		n := rapid.SampledFrom(lens).Draw(t, "fraclen")
+		return digits("frac", n, n)
+	}
+	switch rapid.IntRange(0, 5).Draw(t, "form") {
+	case 0, 1:
+		sb.WriteString(intPart())
+	case 2:
+		sb.WriteString("." + frac())
+	case 3:
+		sb.WriteString(intPart() + ".")
+	default:
+		sb.WriteString(intPart() + "." + frac())
+	}
+	if rapid.IntRange(0, 2).Draw(t, "exp") == 0 {
+		sb.WriteString(rapid.SampledFrom([]string{"e", "E"}).Draw(t, "e"))
+		sb.WriteString(rapid.SampledFrom([]string{"", "+", "-"}).Draw(t, "esign"))
+		sb.WriteString(rapid.SampledFrom([]string{"0", "1", "3", "03", "007", "10", "22", "290", "308", "330", "400", "999"}).Draw(t, "expdigits"))
+	}
+	return sb.String()
+}
+
+func genProdSrc(t *rapid.T, p producer) string {
+	if p.src == "json" {
+		return string(genLit(t))
+	}
+	return genJQNum(t)
+}
+
+// ---------------------------------------------------------------------------
 // getting an arbitrary Go value out of the command: a JSON "recipe" on stdin
 // and a fixed jq function that rebuilds the value from it.
 
@@ -2097,6 +2466,18 @@ func replayCase(sub string, raw json.RawMessage) string {
 			return "bad replay: " + err.Error()
 		}
 		return checkRetained(c)
+	case "produced":
+		var c prodCase
+		if err := json.Unmarshal(raw, &c); err != nil {
+			return "bad replay: " + err.Error()
+		}
+		return checkProduced(c)
+	case "produced-cli":
+		var c prodCLICase
+		if err := json.Unmarshal(raw, &c); err != nil {
+			return "bad replay: " + err.Error()
+		}
+		return checkProducedCLI(c)
 	case "yaml-in":
 		var c yinCase
 		if err := json.Unmarshal(raw, &c); err != nil {
@@ -2490,6 +2871,44 @@ func TestC12(t *testing.T) {
 		rec.Sample(map[string]any{"yaml": c.YAML, "flags": c.Flags, "mode": c.Mode})
 		if msg := checkYAMLIn(c); msg != "" {
 			t.Fatalf("%s", rec.Fail("yaml-in", c, "%s", msg))
+		}
+	})
+
+	// (R7) numbers produced by builtins from text, serialised in every mode
+	prodClass := func(p producer, src string) {
+		rec.Class("produced/src:" + p.src)
+		if p.src == "jq" && !numLit.MatchString(src) {
+			rec.Class("produced/not-json-spelling")
+		}
+		if m, _, _ := strings.Cut(strings.ToLower(src), "e"); len(sigDigits(m)) > 17 {
+			rec.Class("produced/more-than-17-digits")
+		}
+	}
+	rec.Rapid(t, "produced", rec.Scale(24000, 600000), func(t *rapid.T) {
+		p := rapid.SampledFrom(producers).Draw(t, "producer")
+		c := prodCase{Src: genProdSrc(t, p), Prod: p.q}
+		rec.Eval()
+		prodClass(p, c.Src)
+		rec.NT("produced|" + c.Prod + "|" + c.Src)
+		rec.Sample(c)
+		if msg := checkProduced(c); msg != "" {
+			t.Fatalf("%s", rec.Fail("produced", c, "%s", msg))
+		}
+	})
+	rec.Rapid(t, "produced-cli", rec.Scale(700, 10000), func(t *rapid.T) {
+		p := rapid.SampledFrom(producers).Draw(t, "producer")
+		srcs := rapid.SliceOfN(rapid.Custom(func(t *rapid.T) string { return genProdSrc(t, p) }), 1, 30).Draw(t, "srcs")
+		c := prodCLICase{Srcs: srcs, Prod: p.q,
+			Flags: rapid.SampledFrom([][]string{{"-c"}, {}, {"--tab"}, {"--indent", "1"}, {"--indent", "7"}}).Draw(t, "flags"),
+			Mode:  rapid.SampledFrom([]string{"mono", "mono", "color", "raw-tojson"}).Draw(t, "mode")}
+		rec.EvalN(int64(len(srcs)))
+		for _, src := range srcs {
+			prodClass(p, src)
+			rec.NT("produced-cli|" + c.Mode + strings.Join(c.Flags, " ") + "|" + c.Prod + "|" + src)
+		}
+		rec.Class("produced-cli/mode:" + c.Mode)
+		if msg := checkProducedCLI(c); msg != "" {
+			t.Fatalf("%s", rec.Fail("produced-cli", c, "%s", msg))
 		}
 	})
 
